@@ -43,12 +43,13 @@ class Runner:
         """Returns (meta, cases, model_bad_idx, prop_bad {idx: [pred numbers]}, errors)."""
         out = os.path.join(self.ctx.work, sub)
         os.makedirs(out, exist_ok=True)
-        rc, log = common.sh([self.hb, "-seed", str(self.ctx.seed), "-tier", self.ctx.tier, "-out", out] + extra, timeout=1500)
+        rc, log = common.sh([self.hb, "-seed", str(self.ctx.seed), "-tier", self.ctx.tier, "-out", out,
+                               "-tables", os.path.join(common.VERIF, "coq", GROUP, "Tables.v")] + extra, timeout=1500)
         if rc != 0:
             return None, [], [], {}, ["harness failed: " + log[-1500:]]
         meta = json.load(open(os.path.join(out, "meta.json")))
         cases = load_jsonl(os.path.join(out, "cases.jsonl"))
-        res = self.ctx.coq_eval_shards(GROUP, out, meta["shards"], idents=("M", "P", "W"))
+        res = self.ctx.coq_eval_shards(GROUP, out, meta["shards"], idents=("M", "W"))
         errors = ["correspondence shard %s did not evaluate: %s" % (s, lg[-600:]) for s, lg in res["_errors"]]
         mbad, pbad = [], {}
         for k, shard in enumerate(meta["shards"]):
@@ -56,19 +57,21 @@ class Runner:
             base = k * meta["shard_size"]
             for i in (self.ctx.parse_nlist(r.get("M")) or []):
                 mbad.append(base + i)
-            why = parse_why(r.get("W")) or []
-            for i in (self.ctx.parse_nlist(r.get("P")) or []):
-                pbad[base + i] = why[i] if i < len(why) else []
+            for i, w in enumerate(parse_why(r.get("W")) or []):
+                if w:
+                    pbad[base + i] = w
         return meta, cases, mbad, pbad, errors
 
-    def shrink(self, cj, still_fails, budget_s=25, rounds=6):
+    def shrink(self, cj, still_fails, budget_s=20, rounds=8):
         """Greedy one-op removal, every candidate of a round evaluated in one batch."""
         t0 = time.time()
         cur = strip_case(cj)
         n = 0
+        last = 0.0
         for _ in range(rounds):
-            if time.time() - t0 > budget_s or len(cur["ops"]) <= 1:
+            if time.time() - t0 + last > budget_s or len(cur["ops"]) <= 1:
                 break
+            t1 = time.time()
             cands = []
             for i in range(len(cur["ops"])):
                 ops = cur["ops"][:i] + cur["ops"][i + 1:]
@@ -87,6 +90,7 @@ class Runner:
                 break
             # take the removal that fails and keep going from it
             cur = cands[ok[0]]
+            last = time.time() - t1
         return cur
 
 
@@ -112,8 +116,14 @@ def classify(pid, pred, cj):
                if s[0] == 5 and not (16384 <= s[1] <= 16777215)]
         if bad:
             detail = "invalid-max-frame-size"
+        elif steps and "ReadFrame" in (steps[-1].get("err") or "") and \
+                any(o.get("kind") == "push" and o.get("splits") for o in ops):
+            detail = "push-promise-with-continuation"
         elif steps and "ReadFrame" in (steps[-1].get("err") or ""):
             detail = "framer-" + re.sub(r"[^a-z]+", "-", (steps[-1].get("err") or "").lower())[:60].strip("-")
+        elif steps and "decoding" in (steps[-1].get("err") or ""):
+            tab = any(s[0] == 1 for o in ops if o.get("kind") == "settings" for s in (o.get("settings") or []))
+            detail = "hpack-decode-error-after-header-table-size-setting" if tab else "hpack-decode-error"
         elif steps and steps[-1].get("err"):
             detail = re.sub(r"[^a-z]+", "-", steps[-1]["err"].lower())[:60].strip("-")
     elif pid == "C09" and pred == 3:
